@@ -14,6 +14,7 @@ successful credential check for U on that connection.
 from __future__ import annotations
 
 import asyncio
+import os
 import random
 import struct
 from typing import Any, Dict, List, Optional, Tuple
@@ -677,10 +678,81 @@ def oracle(ctx: Ctx) -> OracleResult:
             res.failures.append(Failure(sig, f'server reports authentication as user{u}; successful checks were for '
                                              f'users {checked}; events {o["events"]} {key["bad_signature_kinds"]}', key))
     res.nontrivial = len(set((str(o['app']), tuple(o['events'])) for o in outs if 'skip' not in o))
+    oracle_certs(ctx, res, hist)
     res.histogram = dict(hist)
     res.samples = [{'app': o['app'], 'events': o['events'], 'complete': o.get('complete')} for o in outs[:3]]
     res.rule = 'as the correspondence, a third of the scripts fired without settling between events (true pipelining)'
     return res
+
+
+def oracle_certs(ctx: Ctx, res: OracleResult, hist: Hist) -> None:
+    """Certificate user authentication against a real server whose only authorisation is an authorized_keys CA line:
+    access is granted exactly when the certificate was signed by that CA, is a user certificate, is valid now, and
+    names the user (through the line's principals= option when it has one, else through its own principal list)."""
+    import tempfile
+    import time
+    rng = ctx.subrng('oracle-certs')
+    ca, other_ca = (asyncssh.generate_private_key('ssh-ed25519') for _ in range(2))
+    user_key = asyncssh.generate_private_key('ssh-ed25519')
+    now = int(time.time())
+    tmp = tempfile.mkdtemp(prefix='c05certs-', dir=ctx.tmpdir())
+
+    def cert(signer: Any, principals: Any, kind: str = 'user', va: int = 0, vb: int = 0xffffffffffffffff) -> Any:
+        if kind == 'host':
+            return signer.generate_host_certificate(user_key, 'k', principals=principals, valid_after=va, valid_before=vb)
+        return signer.generate_user_certificate(user_key, 'k', principals=principals, valid_after=va, valid_before=vb)
+
+    # (authorized_keys options, login name, certificate, expected admission, label)
+    cases: List[Tuple[str, str, Any, bool, str]] = []
+    for opts, restricted in (('cert-authority,principals="admin"', True), ('cert-authority', False),
+                             ('cert-authority,principals="ops,adm*,!admin2"', True)):
+        want_name = 'admin'
+        cases += [
+            (opts, want_name, cert(ca, ['admin']), True, 'names-admin'),
+            (opts, want_name, cert(ca, ['guest']), False, 'names-guest'),
+            (opts, want_name, cert(ca, ['guest', 'admin']), True, 'names-both'),
+            (opts, want_name, cert(other_ca, ['admin']), False, 'other-ca'),
+            (opts, want_name, cert(ca, ['admin'], 'host'), False, 'host-certificate'),
+            (opts, want_name, cert(ca, ['admin'], va=now + 3600), False, 'not-yet-valid'),
+            (opts, want_name, cert(ca, ['admin'], vb=now - 3600), False, 'expired'),
+        ]
+        if restricted:
+            # a certificate naming nobody can never satisfy a principals= restriction
+            cases.append((opts, want_name, cert(ca, []), False, 'no-principals-vs-principals-option'))
+            cases.append((opts, 'somebody-else', cert(ca, []), False, 'no-principals-vs-principals-option-other-user'))
+    rng.shuffle(cases)
+
+    async def one(opts: str, name: str, crt: Any) -> Tuple[bool, str]:
+        path = os.path.join(tmp, 'ak%d' % rng.randrange(1 << 30))
+        with open(path, 'w') as f:
+            f.write(opts + ' ' + ca.export_public_key('openssh').decode())
+        try:
+            c, s, hub = await asyncio.wait_for(pair.make_pair(
+                server_factory=asyncssh.SSHServer,          # authentication required, decided by authorized_keys only
+                server_opts=dict(authorized_client_keys=path, **ALGS),
+                client_opts=dict(username=name, client_keys=[(user_key, crt)], **ALGS)), 20)
+        except Exception as e:
+            return False, type(e).__name__
+        who = s.get_extra_info('username')
+        c.abort()
+        await pair.settle(5)
+        return True, str(who)
+
+    async def go() -> List[Tuple[Tuple[str, str, Any, bool, str], Tuple[bool, str]]]:
+        return [(c, await one(c[0], c[1], c[2])) for c in cases]
+    import os
+    for (opts, name, _crt, expect, label), (admitted, detail) in pair.run(go(), timeout=600, sync_executor=True):
+        res.evaluations += 1
+        hist.hit(f'cert:{label}:{"admitted" if admitted else "refused"}')
+        key = {'kind': 'cert', 'options': opts, 'user': name, 'label': label}
+        if admitted and not expect:
+            res.failures.append(Failure(f'authenticated-without-credential-check:certificate:{label}',
+                                        f'server with authorized_keys line {opts!r} <CA> admitted user {name!r} '
+                                        f'(reported as {detail}) presenting a certificate that is {label}', key))
+        if expect and not admitted:
+            res.notes.append(f'certificate {label} for {opts!r} refused ({detail})')
+            hist.hit('note:valid-certificate-refused')
+    res.nontrivial += len(set((c[0], c[4]) for c in cases))
 
 
 def replay(ctx: Ctx, rep: Dict[str, Any]) -> List[Failure]:
